@@ -4,7 +4,7 @@ repository's suite passes with it, and its own equivalence demonstration passes 
 seeded/_negative/R_<Cxx>_<k>.diff so that tools/matrix.py treats them as negative controls."""
 import json, os, subprocess, sys, glob, shutil
 WT = '/tmp/seedwt'
-INC = '/verif/seeded/_refactor'
+INC = os.environ.get('REFAC_INC', '/verif/seeded/_refactor')
 OUT = os.path.join(INC, 'validation.json')
 env = dict(os.environ, CARGO_NET_OFFLINE='true', CARGO_TARGET_DIR=WT + '-target')
 
@@ -65,6 +65,6 @@ def main():
         print(key, json.dumps({k: v for k, v in r.items() if not k.endswith('tail')}), flush=True)
         json.dump(res, open(OUT, 'w'), indent=1)
         if r['confirmed']:
-            shutil.copy(os.path.join(d, 'patch.diff'), '/verif/seeded/_negative/R_%s.diff' % tag)
+            shutil.copy(os.path.join(d, 'patch.diff'), '/verif/seeded/_negative/%s_%s.diff' % (os.environ.get('REFAC_PREFIX', 'R'), tag))
 
 main()
